@@ -31,6 +31,7 @@ def mirror(s):
 
 
 import re as _re
+_LOCALSTRUCT = _re.compile(r"^(\w+)\.")
 _OFF = _re.compile(r"^\((.*)\+#(\d+)\)$")
 
 
@@ -131,7 +132,7 @@ class Path:
 
 
 class State:
-    __slots__ = ("env", "epoch", "cons", "events", "visits", "blocks", "atoms", "nodeval", "fresh", "det")
+    __slots__ = ("env", "epoch", "cons", "events", "visits", "blocks", "atoms", "nodeval", "fresh", "det", "lver")
 
     def copy(self):
         s = State()
@@ -145,6 +146,7 @@ class State:
         s.nodeval = dict(self.nodeval)
         s.fresh = self.fresh
         s.det = False
+        s.lver = dict(self.lver)
         return s
 
 
@@ -189,6 +191,10 @@ class APE:
                 if n.get("dk") in ("func",):
                     return ("s", "&" + n["name"])
                 return ("s", key)
+            m = _LOCALSTRUCT.match(key)
+            if m:
+                # member of a local struct object: changes only by stores to it or calls given its address
+                return ("s", "%s@L%d" % (key, st.lver.get(m.group(1), 0)))
             return ("s", "%s@%d" % (key, st.epoch))
         if k == "UnaryOperator":
             op = n["op"]
@@ -359,6 +365,9 @@ class APE:
 
     def _store(self, st, lhs, v, node, B):
         key = self._valkey(st, lhs)
+        m = _LOCALSTRUCT.match(key)
+        if m:
+            st.lver[m.group(1)] = st.lver.get(m.group(1), 0) + 1
         if not self._is_var_key(key):
             # memory store: drop everything that has this key as a prefix, or that may alias
             # the same field through another base
@@ -415,6 +424,9 @@ class APE:
                     if t["k"] == "DeclRefExpr" and t.get("dk") in ("local", "param"):
                         st.fresh += 1
                         key = t["name"]
+                        st.lver[key] = st.lver.get(key, 0) + 1
+                        for k in [k for k in st.env if k.startswith(key + ".")]:
+                            del st.env[k]
                         for k in [k for k in st.env if k.startswith(key + "->") or k.startswith("*" + key)]:
                             del st.env[k]
                         st.env[key] = ("s", "%s.out%d#%d" % (name, i, st.fresh))
@@ -431,7 +443,13 @@ class APE:
                             continue
                         a = strip(args[i])
                         if a["k"] == "UnaryOperator" and a.get("op") == "&":
+                            t0 = strip(a["kids"][0])
+                            if t0["k"] == "DeclRefExpr" and t0.get("dk") in ("local", "param"):
+                                continue   # already given a fresh out-value above
                             root = self._valkey(st, a["kids"][0])
+                            r0 = _re.match(r"^\w+", root)
+                            if r0:
+                                st.lver[r0.group(0)] = st.lver.get(r0.group(0), 0) + 1
                             pref = (root + ".", root + "->", root + "[")
                             for k in [k for k in st.env if k == root or k.startswith(pref)]:
                                 del st.env[k]
@@ -518,6 +536,7 @@ class APE:
         st.nodeval = {}
         st.fresh = 0
         st.det = False
+        st.lver = {}
         self.paths = []
         self.stop = set(stop)
         stack = [(start if start is not None else f.entry, st)]
